@@ -697,3 +697,6 @@ THEOREMS = THEOREMS + ["OdxVerif.Codec." + t for t in ['C03_reencode_nested3b', 
                                                         'descs3b_reencode_pure', 'Descs3b.supplied_eq_decoded', 'descs3b_cur_eq',
                                                         'C03_mux_compu_key_interior_not_reproduced', 'C03_dynlen_compu_count_rounded',
                                                         'exRe9_ok', 'exRe9_full', 'exRe9_disj', 'LinFLeaf.desc_full']]
+# W29: re-encoding with UTF-16LE leaves inside field items / multiplexer cases (Desc2U / Described2U)
+THEOREMS = THEOREMS + ["OdxVerif.Codec." + t for t in ['C03_reencode_nested2U', 'descs2U_reencode_pure', 'Descs2U.supplied_eq_decoded',
+                                                        'Desc2U.sup_eq_val', 'exReU_ok', 'exReU_full', 'exReU_disj']]
